@@ -1,8 +1,9 @@
 (* C06 wire functions.
    input : [ft st ops]   initial thresholds and ops
      [1 n] ReqFail (n concurrent OnFail)   [2] ReqSucc (OnSuccess)   [3] CheckOk   [4] CheckFail
-     [5] Release                           [6 ft st] thresholds change
-   output: per op [avail failNum succNum pending restarted]
+     [5] Release                           [6 ft st] thresholds change (ft >= 1000000: no check conf)
+     [8] the whole cluster is removed: no check conf any more and Release
+   output: per op [avail failNum succNum pending restarted live]   (live = goroutines inside health_check.go:check)
      (pending = health-check requests of this backend currently outstanding at the check target) *)
 From Coq Require Import List ZArith Bool.
 From Bfe Require Import lib.Val model.Health.
@@ -17,6 +18,7 @@ Definition dec_hop (v : val) : option hop :=
   | VL [VZ 4] => Some CheckFail
   | VL [VZ 5] => Some Release
   | VL [VZ 6; VZ ft; VZ st] => Some (SetThr ft st)
+  | VL [VZ 8] => Some RemoveCluster
   | _ => None
   end.
 Definition dec_input (i : val) : option (Z * Z * list hop) :=
@@ -26,7 +28,7 @@ Definition dec_input (i : val) : option (Z * Z * list hop) :=
   | _ => None
   end.
 Definition enc_h (s : hstate) : val :=
-  VL [vbool (avail s); VZ (failN s); VZ (succN s); VZ (checkers s); vbool (restarted s)].
+  VL [vbool (avail s); VZ (failN s); VZ (succN s); VZ (checkers s); vbool (restarted s); VZ (checkers s)].
 Definition run_C06 (i : val) : val :=
   match dec_input i with
   | Some (ft, st, ops) => VL (map enc_h (hrun (h_init ft st) ops))
@@ -36,7 +38,7 @@ Definition agree_C06 (i o : val) : bool := val_eqb (run_C06 i) o.
 
 Definition dec_obs (v : val) : option (bool * Z) :=
   match v with
-  | VL [VZ a; VZ _; VZ _; VZ p; VZ _] => Some (negb (a =? 0), p)
+  | VL [VZ a; VZ _; VZ _; VZ p; VZ _; VZ live] => if p =? live then Some (negb (a =? 0), live) else None
   | _ => None
   end.
 Definition prop_C06 (i o : val) : bool :=
